@@ -117,6 +117,7 @@ type trCtx struct {
 	pureLits     map[*ast.FuncLit]string                        // trans_tree.go: function literals already translated as pure definitions
 	postLits     map[*ast.FuncLit]*trPostLit                    // trans_tree.go: function literals already translated for PostOrder
 	synth        map[ast.Expr]string                            // synthetic expression nodes that carry a translated term (trans_units_jprinter.go)
+	writerMove   *trWriterMove                                  // the io.Writer parameter lives in a field of a local (trans_units_jprinter.go)
 }
 
 type trPre struct {
@@ -258,7 +259,7 @@ func (c *trCtx) exprAs(e ast.Expr, ty types.Type) string {
 		}
 		trFail(e.Pos(), "nil of type %s is outside the subset", ty)
 	}
-	return c.expr(e)
+	return c.ifaceArg(ty, e, c.expr(e)) // a *T in a position of a sum-type interface: the constructor of T (trans_units_jprinter.go)
 }
 
 // errorBox: a struct literal of a type that implements `error`, used as an error: only its message is kept — the constant
